@@ -529,6 +529,7 @@ def run(ctx):
                "every write / flush of Connection::%s is awaited and an I/O error ends the response" % meth, where=b.loc, detail=chk)
         # the state named in CacheResponse, EndOfData and update is the source's
         st = {}
+        tm = []
 
         def collect(body_, subst, depth=0):
             for c in body_.calls():
@@ -536,6 +537,8 @@ def run(ctx):
                     continue
                 if c.res in (PDU + "CacheResponse::new", PDU + "EndOfData::new"):
                     st.setdefault(short(c.res), []).append(subst(K.arg_renders(c)[1]))
+                if c.res == PDU + "EndOfData::new":
+                    tm.append(subst(K.arg_renders(c)[2]))
                 if c.name == "update" and (c.trait or "").endswith("Socket"):
                     st.setdefault("update", []).append(subst(K.arg_renders(c)[1]))
                 # an awaited private async helper: look inside, with its parameters replaced by the arguments passed here
@@ -559,6 +562,13 @@ def run(ctx):
         ctx.ob("R-FLOW", "Connection::%s:state-is-source-state" % meth, ok,
                "CacheResponse, EndOfData and the socket update all carry the state returned by the source's %s"
                % ("diff" if meth == "serial" else "full"), where=b.loc, detail=st)
+        # the timing announced in End of Data is what the source says *in this exchange*: the result of a call of
+        # PayloadSource::timing made by the responder itself — not a value kept in the connection from an earlier exchange
+        tsrc = "PayloadSource::timing(^self.source)"
+        okt = bool(tm) and all(re.sub(r"^\w+⟵", "", v) == tsrc for v in tm)
+        ctx.ob("R-FLOW", "Connection::%s:timing-is-source-timing" % meth, okt,
+               "the timing values of End of Data are the source's current ones (PayloadSource::timing called in this exchange)",
+               where=b.loc, detail=tm)
         # every item of the iterator goes through new_if_supported with its own action
         ni = [c for c in b.calls() if c.res == PDU + "Payload::new_if_supported" and not b.is_cleanup(c.bb)]
         okn = len(ni) == 1
